@@ -390,13 +390,14 @@ KEYTIME = {"d": 0.0, "s1": 0.5}
 NOUT = 6      # outputs of the fixed part of a case: precision, rtmodel block, rt, mcmp, traj, traj
 
 
-def case_script(st, bind):
-    """harness lines of one case, the queries whose answers are compared, and the two expectations"""
+def case_script(st, bind, tmpfile=None):
+    """harness lines of one case, the queries whose answers are compared, and the two expectations;
+    tmpfile: go through mj_saveXML / mj_parseXML and a file instead of the string functions"""
     ev = st["ev"]
     p = ev["prec"]
     mlines = model_lines(st, bind)
     inexact = any(FEATSEQ[f - 1] in INEXACT for f in st["feats"])
-    lines = ["precision %d" % p, "rtmodel 1"] + mlines + ["end", "rt 1 2",
+    lines = ["precision %d" % p, "rtmodel 1"] + mlines + ["end", "rtfile 1 2 " + drv.hx(tmpfile) if tmpfile else "rt 1 2",
              "mcmp 1 2" + (" 1e-5" if p == 6 else " 1e-9" if inexact else ""), "traj 1 3", "traj 2 3"]
     want_model = view_checks(ev["model"], st, bind, KEYTIME)
     want_code = view_checks(ev["code"], st, bind, KEYTIME)
@@ -409,6 +410,8 @@ def case_script(st, bind):
 
 
 def answer(q, line):
+    if line == "nomodel":
+        return line
     if q.startswith("names"):
         return filter_names(line)
     if q.startswith("mget"):
@@ -491,15 +494,21 @@ def structure(st):
 def run_cases(ctx, exe, states, label, first_case=0):
     """replay TLC models into the implementation; returns number of cases"""
     lines, index, nout = [], [], 0
+    tmpdir = tempfile.mkdtemp(prefix="c32", dir=os.path.join(VERIF, ".cache"))
     for n, st in enumerate(states):
         bind = Binding(first_case + n)
-        l, mlines, queries, wm, wc = case_script(st, bind)
+        # every 8th case travels through a file (mj_saveXML / mj_parseXML), the others through strings
+        l, mlines, queries, wm, wc = case_script(st, bind, os.path.join(tmpdir, "m.xml") if n % 8 == 3 else None)
         index.append((nout, l, mlines, queries, wm, wc, st, first_case + n))
         nout += NOUT + 2 * len(queries)
         lines += l
     if not lines:
+        shutil.rmtree(tmpdir, ignore_errors=True)
         return 0
-    r = drv.run_script(exe, lines, timeout=3000)
+    try:
+        r = drv.run_script(exe, lines, timeout=3000)
+    finally:
+        shutil.rmtree(tmpdir, ignore_errors=True)
     if r.crashed or len(r.lines) != nout:
         k = len(r.lines)
         bad = next((ix for ix in index if ix[0] <= k < ix[0] + NOUT + 2 * len(ix[3])), index[-1])
@@ -613,11 +622,24 @@ def run_examples(ctx, exe, quick):
         second += ["parsefile 1 " + drv.hx(f), "compile 1 1", "parsexml 2 " + s, "setdir 2 " + drv.hx(os.path.dirname(f) + "/"),
                    "compile 2 2", "mdiff 1 2 1e-9"]
     r = drv.run_script(exe, second, timeout=3000)
+    outs = {}
     if r.crashed or len(r.lines) != len(second):
-        raise Machinery("example pass 2 died: %s" % r.crash_text())
+        # the harness died inside the reader or compiler: find the file(s), one process per file
+        for i, (f, s) in enumerate(usable):
+            ri = drv.run_script(exe, ["precision 17"] + second[1 + 6 * i: 7 + 6 * i], timeout=600)
+            if ri.crashed or len(ri.lines) != 7:
+                ctx.case({"example": os.path.relpath(f, build.REPO)}, nontrivial=True)
+                ctx.violation("rt:example-crash", "%s: the harness dies (%s) while loading the saved MJCF" % (
+                    os.path.relpath(f, build.REPO), ri.crash_text()), {"file": os.path.relpath(f, build.REPO)})
+            else:
+                outs[i] = ri.lines[1:7]
+    else:
+        outs = {i: r.lines[1 + 6 * i: 7 + 6 * i] for i in range(len(usable))}
     nok = 0
     for i, (f, s) in enumerate(usable):
-        o = r.lines[1 + 6 * i: 7 + 6 * i]
+        if i not in outs:
+            continue
+        o = outs[i]
         rel = os.path.relpath(f, build.REPO)
         ctx.case({"example": rel}, nontrivial=True)
         rep = {"file": rel}
@@ -679,8 +701,8 @@ def run(ctx):
     total += run_cases(ctx, exe, uniq, "sim", first_case=total)
     # 4. implementation-level control: two models that differ in one attribute are told apart
     r = drv.run_script(exe, ["rtmodel 1", "cgeom name=g type=2 size=0.25 friction=0.5", "end", "rtmodel 2",
-                             "cgeom name=g type=2 size=0.25 friction=0.25", "end", "mcmp 1 2", "rt 1 3", "mcmp 1 3"])
-    ctx.control("array comparer tells two different models apart and accepts an identical reload",
+                             "cgeom name=g type=2 size=0.25 friction=0.25", "end", "mcmp 1 2", "copymodel 3 1", "mcmp 1 3"])
+    ctx.control("array comparer tells two different models apart and accepts a copy",
                 len(r.lines) == 5 and r.lines[2].startswith("ne geom_friction") and r.lines[4] == "eq")
     # 5. shipped example models
     nex = run_examples(ctx, exe, quick)
@@ -704,7 +726,8 @@ def replay(ctx, rp):
         if r.lines[-1] != "eq":
             ctx.violation(rp["signature"], rp["what"], d)
     else:
-        r = drv.run_script(exe, d["script"] + ["savexml 1"])
+        # (a case that travelled through a temporary file is replayed through the string functions)
+        r = drv.run_script(exe, [("rt 1 2" if l.startswith("rtfile ") else l) for l in d["script"]] + ["savexml 1"])
         nq = len(d["queries"])
         print("round trip:", r.lines[2], "| arrays:", r.lines[3][:300])
         got2 = {q: answer(q, r.lines[NOUT + 2 * j + 1]) for j, q in enumerate(d["queries"])}
